@@ -15,6 +15,7 @@ import (
 //   - a static call to a script-free module function,
 //   - a static call to a function outside the module that receives no callback-capable argument,
 //   - a dynamic call all of whose VTA/CHA targets are script-free module functions.
+//
 // Everything else (unresolved function values, reflection) may run script.
 type scriptFacts struct {
 	once   sync.Once
